@@ -12,6 +12,7 @@ Oracle   : LTImage.stream.get_data(), srcsize, bits, colorspace == model; glyphs
            samples; .jpg byte-identical; returned names distinct, each file written once, nothing overwritten.
 """
 import io
+import re
 import os
 import struct
 
@@ -37,7 +38,7 @@ ASSUMPTIONS = [
     "'the end marker' = EI followed by a byte for which bytes.isspace() is true; inline data is written as ID<space>data<LF>EI<LF> and does not end in CR",
     "export formats limited to those that do not need Pillow (DCT pass-through, 1-bit / 8-bit gray / 8-bit RGB bitmaps)",
 ]
-PROBES = ["stencil mask", "samples begin with a magic number", "run under settings.STRICT", "page with shifted MediaBox or /Rotate", "one ImageWriter for two documents", "ASCII85 inline data contains EI + white space", "two inline images with the same data bytes", "dct data continues behind the EOI marker", "CR after ID and data starting with LF", "dct behind further filters", "same XObject drawn twice", "inline image ending at the ASCII85 marker", "inline image", "xobject image", "gray8", "rgb8", "1bit", "dct", "filter chain", "unfiltered", "row padding needed", "boundary placed in inline markers", "contents split after image", "inline data contains EI", "preexisting export name", "two images same name", "bmp exported", "jpg exported"]
+PROBES = ["non-ASCII comment right behind the end marker", "file names reported in the XML compared with the files written", "stencil mask", "samples begin with a magic number", "run under settings.STRICT", "page with shifted MediaBox or /Rotate", "one ImageWriter for two documents", "ASCII85 inline data contains EI + white space", "two inline images with the same data bytes", "dct data continues behind the EOI marker", "CR after ID and data starting with LF", "dct behind further filters", "same XObject drawn twice", "inline image ending at the ASCII85 marker", "inline image", "xobject image", "gray8", "rgb8", "1bit", "dct", "filter chain", "unfiltered", "row padding needed", "boundary placed in inline markers", "contents split after image", "inline data contains EI", "preexisting export name", "two images same name", "bmp exported", "jpg exported"]
 TIERS = {
     "quick": {"batches": 16, "runs": 450, "budget_s": 90},
     "thorough": {"batches": 128, "runs": 500, "budget_s": 1200},
@@ -191,7 +192,11 @@ def build_document(t, ctx, images, page_of, with_images=True, geom=(0, 0, 0)):
             if sep == b"\r" and im["data"][:1] == b"\n":
                 ctx.probe("CR after ID and data starting with LF")
             head = place + b"BI " + d + b"ID" + sep
-            seg = head + im["data"] + b"\nEI\n" + b"Q "
+            # what follows the end marker is content like any other: operators, or a comment or string with any bytes in it
+            post = t.pick([b"", b"", b"", b"%\xe9t\xe9 \x82\xa0\n", b"% \x00\x01\xff\n", b"%EI \n"], "inl.post")
+            if post:
+                ctx.probe("non-ASCII comment right behind the end marker")
+            seg = head + im["data"] + b"\nEI\n" + post + b"Q "
             if pg == 0:
                 base = pos[pg] + len(head)
                 marks += [base - 2, base - 1, base, base + len(im["data"]), base + len(im["data"]) + 1, base + len(im["data"]) + 2, base + len(im["data"]) + 3, base + len(im["data"]) + 4]
@@ -500,6 +505,14 @@ def run_inner(tape, ctx, item=None):
                     rp = os.path.realpath(p)
                     if rp not in order:
                         order.append(rp)
+                if mode == "xml":
+                    # the name the converter reports for an image is the name of the file that holds it
+                    import html as _html
+
+                    srcs = [_html.unescape(m) for m in re.findall(r'<image src="([^"]*)"', res["out"])]
+                    if srcs != [os.path.basename(p) for p in order]:
+                        devs.append(Dev("C18:export:reported-name", "the XML names the image files %r, the files written are %r (in showing order); %s" % (srcs, [os.path.basename(p) for p in order], cfg)))
+                    ctx.probe("file names reported in the XML compared with the files written")
                 for i, (im, p) in enumerate(zip(shown, order)):
                     sc.check(p)
                     with open(p, "rb") as f:
